@@ -3,14 +3,17 @@
    system driven by an oracle).  "repaired" = behaviour after build/proposed_fixes/C05_*.diff,
    "as_found" = unpatched code (F20, F11), kept to state the refutations.
 
-   STATUS (see notes/C05.md): the statements marked _partial are the ONE-STEP laws, proved for
-   every state, every program and -- in RT -- with no physical time in scope at all; the
-   whole-execution statement (induction over executions linking consecutive wake-ups of one routine)
-   is written in the comment above each and is NOT proved here; it is what the correspondence
-   replays (RT under injected jitter, NRT) and what the search monitors check. *)
-From Coq Require Import ZArith QArith Qround List Bool.
+   STATUS (see notes/C05.md): the statements marked _partial are the ONE-STEP laws (every state, every
+   program; in RT with no physical time in scope).  The WHOLE-EXECUTION statements -- kth_resume_time_nrt,
+   kth_resume_time_rt, child_starts_at_parent_time, child_starts_at_parent_time_rt, nrt_time_monotone --
+   are proved in proofs/C05_exec.v by a scheduling invariant that links every queue entry to the progress
+   of its routine (the entry of routine rid is due at beat B rid + sum of the first r_k deltas of its body;
+   at most one entry per routine), for every program, every prefix of the non-real-time run (any fuel) and,
+   in real time, EVERY oracle: any order of atomic steps (also the ones the clock refuses: they leave the
+   state unchanged) and any physical clock readings. *)
+From Coq Require Import ZArith QArith Qround List Bool Sorting.Sorted.
 Require Import SC3.model.KProg SC3.model.KNrt SC3.model.KRt.
-Require Import SC3.proofs.C05_frame SC3.proofs.C07_runs SC3.proofs.C05_props.
+Require Import SC3.proofs.C05_frame SC3.proofs.C07_runs SC3.proofs.C05_props SC3.proofs.C05_exec.
 Import ListNotations.
 Open Scope Q_scope.
 
@@ -104,6 +107,61 @@ Theorem nrt_elapsed_ends_at_last_instant : forall qk p fuel,
   end.
 Proof. exact nrt_elapsed_last. Qed.
 
+(* ---- whole executions -------------------------------------------------------------------------------- *)
+(* ys_of p r = the deltas yielded by the body the routine instance r runs (up to its first Return).
+   sec_ok c s b: on a clock without tempo (SystemClock, AppClock) seconds = beats; on a TempoClock the
+   seconds are beats2secs(beats) under the tempo map of the moment of the resumption (the beats logged are
+   secs2beats of the seconds: kth_resume_time_*_partial above). *)
+
+(* NRT, every program, every fuel, the repaired code (no guard on the deltas: also negative ones): the
+   beat observed at the k-th resumption of a routine = the beat of its first resumption + the sum of the
+   first k deltas it yielded, on the clock it was played on -- whatever other routines and tempo changes
+   are interleaved. *)
+Theorem kth_resume_time_nrt : forall qk p fuel rid k c s b c0 s0 b0,
+  qk_app_abs qk = false -> qk_tempo_frozen qk = false ->
+  let st := nrt_loop qk p fuel (nrt_main qk p) in
+  In (EvResume rid k c s b) (n_log st) -> In (EvResume rid 0 c0 s0 b0) (n_log st) ->
+  exists r, nth_error (n_routs st) rid = Some r /\ c = r_clock r /\ c0 = r_clock r /\
+            b == b0 + Qsum (firstn k (ys_of p r)) /\ sec_ok c s b.
+Proof. exact kth_resume_nrt. Qed.
+
+(* RT, every program, EVERY oracle (sched: which atomic step happens next and what the physical clock
+   reads, arbitrary): the same law.  No physical reading occurs in it. *)
+Theorem kth_resume_time_rt : forall off p sched rid k c s b c0 s0 b0,
+  let st := rs (rt_run off p sched) in
+  In (EvResume rid k c s b) (n_log st) -> In (EvResume rid 0 c0 s0 b0) (n_log st) ->
+  exists r, nth_error (n_routs st) rid = Some r /\ c = r_clock r /\ c0 = r_clock r /\
+            b == b0 + Qsum (firstn k (ys_of p r)) /\ sec_ok c s b.
+Proof. exact kth_resume_rt. Qed.
+
+(* NRT, deltas >= 0 and initial tempi >= 0 (nonneg_prog), every clock -- SystemClock, AppClock, TempoClocks,
+   also when the tempo of the child's clock is changed before it starts: a routine played at logical time
+   Tp (by a routine of any clock, or from outside) observes Tp at its first resumption, on the clock it was
+   played on. *)
+Theorem child_starts_at_parent_time : forall qk p fuel o ch c Tp c' s b,
+  qk_app_abs qk = false -> qk_tempo_frozen qk = false -> nonneg_prog p ->
+  let st := nrt_loop qk p fuel (nrt_main qk p) in
+  In (EvPlay o ch c Tp) (n_log st) -> In (EvResume ch 0 c' s b) (n_log st) -> c' = c /\ s == Tp.
+Proof. exact child_start_nrt. Qed.
+
+(* RT, every program, every oracle: the same on SystemClock; on TempoClock i provided no tempo change of
+   that clock happened during the run (start_ok: notempo i log -> s == Tp).  With a tempo change between
+   play() and the start -- which in real time may come from a routine of another clock running at another
+   logical time -- the child is woken at beats2secs(its beat) under the new map. *)
+Theorem child_starts_at_parent_time_rt : forall off p sched o ch c Tp c' s b,
+  let st := rs (rt_run off p sched) in
+  In (EvPlay o ch c Tp) (n_log st) -> In (EvResume ch 0 c' s b) (n_log st) ->
+  c' = c /\ start_ok (n_log st) c' s Tp.
+Proof. exact child_start_rt. Qed.
+
+(* NRT, deltas >= 0, initial tempi >= 0, every program, every fuel: the logical times of the successive
+   resumptions (in execution order) never decrease -- across routines, clocks and tempo changes.
+   (Latencies do not enter: they move bundles, not tasks; the score's order is C07's score_sorted_stable.) *)
+Theorem nrt_time_monotone : forall qk p fuel,
+  qk_app_abs qk = false -> qk_tempo_frozen qk = false -> nonneg_prog p ->
+  StronglySorted Qle (resume_secs (n_log (nrt_loop qk p fuel (nrt_main qk p)))).
+Proof. exact time_monotone_nrt. Qed.
+
 (* non-vacuity: a tempo clock is well-formed; a nested program across three clocks runs *)
 Example c05_wf : wf_tcs [tc_new 2 (1#4); tc_new 0 0].
 Proof. repeat constructor; apply tc_new_wf. Qed.
@@ -114,5 +172,23 @@ Example c05_example :
   map Qred (resume_secs (n_log (nrt_run repaired p 20))) = [0; 1#4; 1#4; 1#4; 5#16; 3#8; 3#8; 1#2; 3#4].
 Proof. vm_compute. split; reflexivity. Qed.
 
+(* the hypotheses are satisfiable and the conclusions can be read off a run: routine 2 of c05_example
+   (body [Yield 1/8; Yield 1/8] on TempoClock(2), played at 1/4 s = beat 1/2) *)
+Definition c05_p : prog :=
+  mkProg [2] [[Yield (1#4); Play 1 CApp; Play 1 (CTempo 0); Yield (1#2)]; [Yield (1#8); Yield (1#8)]] [Play 0 CSystem] 0.
+Example c05_nonneg : nonneg_prog c05_p.
+Proof. split; repeat constructor; simpl; discriminate. Qed.
+Example c05_sigma_instance :
+  In (EvResume 2 2 (CTempo 0) (3#8) (3#4)) (n_log (nrt_loop repaired c05_p 20 (nrt_main repaired c05_p))) /\
+  In (EvResume 2 0 (CTempo 0) (1#4) (1#2)) (n_log (nrt_loop repaired c05_p 20 (nrt_main repaired c05_p))) /\
+  In (EvPlay (Some (0, 1)%nat) 2 (CTempo 0) (1#4)) (n_log (nrt_loop repaired c05_p 20 (nrt_main repaired c05_p))) /\
+  (3#4) == (1#2) + Qsum (firstn 2 [1#8; 1#8]).
+Proof. vm_compute. repeat split; try tauto; discriminate. Qed.
+
 Print Assumptions kth_resume_time_rt_partial.
+Print Assumptions kth_resume_time_nrt.
+Print Assumptions kth_resume_time_rt.
+Print Assumptions child_starts_at_parent_time.
+Print Assumptions child_starts_at_parent_time_rt.
+Print Assumptions nrt_time_monotone.
 Print Assumptions nrt_elapsed_ends_at_last_instant.
